@@ -117,6 +117,8 @@ struct Gen {
     addrs: Vec<Multiaddr>,
     /// expected peer of the k-th transport dial
     dial_peer: Vec<Option<usize>>,
+    /// share (in quarters) of the dials made with `DialOpts::override_role()`
+    ov4: u64,
 }
 
 impl Gen {
@@ -180,6 +182,7 @@ impl Gen {
                     beh_addrs: vec![],
                     deny: rng.chance(1, 14),
                     refuse,
+                    ov: self.ov4 > 0 && rng.chance(self.ov4, 4),
                 }
             }
             22..=43 => {
@@ -248,11 +251,27 @@ pub fn run(args: &Args, out: &mut Out) {
     let n = args.n(400, 20_000);
     for i in 0..n {
         let mut rng = Rng::for_case(args.seed, i);
-        let l = Gen::lims(&mut rng);
+        let mut l = Gen::lims(&mut rng);
+        // role-override (hole punching) dials: none / a quarter / three quarters of the dials; the
+        // last class keeps the outgoing limits tight so that override dials run into them
+        let ov4 = [0u64, 1, 1, 3][rng.usize(4)];
+        if ov4 == 3 {
+            l[3] = Some(1 + rng.below(2) as u32);
+            if rng.bool() {
+                l[1] = Some(1 + rng.below(2) as u32);
+            }
+            if rng.chance(1, 3) {
+                l[4] = Some(1);
+            }
+            if rng.chance(1, 3) {
+                l[5] = Some(2 + rng.below(2) as u32);
+            }
+        }
         let len = 8 + rng.usize(50);
-        out.case(i, &format!("script nt=1 len={len} lim={} peers={}", lims_tok(&l), peers_tok()));
+        let class = ["script", "override", "override", "holepunch"][match ov4 { 0 => 0, 1 => 1, _ => 3 }];
+        out.case(i, &format!("{class} nt=1 len={len} lim={} peers={}", lims_tok(&l), peers_tok()));
         let mut r = new_runner(&l);
-        let mut g = Gen { addrs: base_addrs(), dial_peer: vec![] };
+        let mut g = Gen { addrs: base_addrs(), dial_peer: vec![], ov4 };
         let ps = r.peers.clone();
         for _ in 0..len {
             let op = g.next(&mut rng, &r, &ps);
